@@ -21,6 +21,8 @@ structure RepOps where
   scale : Int → Nat → Num → Res Num
   /-- `static_cast<T>(s)` between representation types -/
   cast : Ty → Num → Res Num
+  /-- the type of `rep << constant<k>` (used to align operands of a comparison) -/
+  shlConstTy : Ty → Nat → Ty
 
 /-- `power_value<S, k, radix>()` for a built-in integer `S`, `k ≥ 0`.
 Ill-formed (constant evaluation overflows / `static_assert`) when the power does not fit. -/
@@ -75,5 +77,8 @@ def intOps : RepOps where
   cast := fun t x => match t, x.1 with
     | .int d, .int a => .ok (Ty.int d, (convert d (a, x.2)).2)
     | _, _ => .ill "intOps.cast"
+  shlConstTy := fun t _ => match t with
+    | .int a => .int (promote a)
+    | o => o
 
 end Cnl
